@@ -233,13 +233,9 @@ CLAIMED["C08"] = {
             "Error code 8 under the negotiated version; the Error PDU "
             "encapsulates exactly the offending header; a refused header "
             "leaves the state unchanged) and the length check for every "
-            "header and expected length (Error code 3). Thorough tier: "
-            "Connection::recv on one unfragmented 12-byte client stream per "
-            "PDU type with all other bytes and the version state arbitrary "
-            "(query recognised / Error PDU per reference, exactly 8 or 12 "
-            "bytes consumed), and the byte-exact responses of reset / serial "
-            "/ notify for 0..2 arbitrary IPv4 origins, versions 0..2, source "
-            "ready or not, diff or not.",
+            "header and expected length (Error code 3). Thorough tier adds the "
+            "byte-exact Serial Notify written by Connection::notify for "
+            "every source state and connection version.",
     "ref": "§3 C08",
     "note": "Hooks: rtr::server::verif (Conn wrapper of the private "
             "Connection, VQuery mirror of Query, notify future driven by a "
@@ -247,8 +243,10 @@ CLAIMED["C08"] = {
             "which Kani cannot compile), pdu::Error::verif_from_octets. NOT "
             "decided: fragmentation of the client bytes and interleaving of "
             "notifications with their arrival -- one unfragmented recv call "
-            "costs 18 GB / 4 min (state in nested coroutines), a second call "
-            "or one Pending runs out of 45 GB; the cancellation defect the "
+            "without the full oracle costs 18 GB / 4 min (state in nested "
+            "coroutines), with the oracle, a second call or one Pending it "
+            "runs out of 40-45 GB; likewise the responses of reset / serial "
+            "(harnesses kept '@tier off'); the cancellation defect the "
             "property text mentions (select() dropping a half-read header) "
             "is therefore not shown by any query and not listed as a "
             "finding.",
